@@ -77,6 +77,7 @@ type magDriver struct {
 	exactPos map[string]*ssa.Function
 	exactOK  map[string]int
 	exactN   int
+	exactActive bool
 }
 
 func (d *magDriver) structFields(t types.Type) int {
@@ -221,6 +222,11 @@ func (d *magDriver) hooks() absint.Hooks {
 
 // cached evaluates a leaf field function through a summary cache keyed by the operand magnitudes.
 func (d *magDriver) cached(it *absint.Interp, f *ssa.Function, args []absint.AnyVal) (absint.AnyVal, bool) {
+	if d.exactActive {
+		// inside the exact run of a field operation that delegates to another one: evaluate the callee in line so that
+		// the polynomials flow through it
+		return nil, false
+	}
 	var sb strings.Builder
 	sb.WriteString(f.Name())
 	var ptrs []int
@@ -274,7 +280,9 @@ func (d *magDriver) cached(it *absint.Interp, f *ssa.Function, args []absint.Any
 	}
 	d.squareInduction(it, f, args)
 	er := d.exactPre(it, f, args, ptrs)
+	d.exactActive = er != nil
 	it.Call(f, args, nil)
+	d.exactActive = false
 	if it.Err != nil {
 		return nil, true
 	}
